@@ -1,0 +1,66 @@
+//go:build verif
+
+package channels
+
+import (
+	"sync/atomic"
+
+	datatransfer "github.com/filecoin-project/go-data-transfer/v2"
+	"github.com/filecoin-project/go-data-transfer/v2/channels/internal"
+	"github.com/filecoin-project/go-data-transfer/v2/channels/internal/migrations"
+)
+
+// This file is only compiled with the `verif` build tag. It exposes internals
+// to the external verification harness; it does not change behaviour.
+
+// VerifChannelState is the on-disk channel record (current schema version)
+type VerifChannelState = internal.ChannelState
+
+// VerifEncodedVoucher is the on-disk voucher entry
+type VerifEncodedVoucher = internal.EncodedVoucher
+
+// VerifEncodedVoucherResult is the on-disk voucher result entry
+type VerifEncodedVoucherResult = internal.EncodedVoucherResult
+
+// VerifNode is the cbor-gen compatible IPLD node wrapper
+type VerifNode = internal.CborGenCompatibleNode
+
+// VerifChannelStateV2 is the on-disk channel record of schema version 2
+type VerifChannelStateV2 = migrations.ChannelStateV2
+
+// VerifMigrate2To3 is the version 2 -> 3 record migration
+func VerifMigrate2To3(old *VerifChannelStateV2) (*VerifChannelState, error) {
+	return migrations.MigrateChannelState2To3(old)
+}
+
+// VerifSend sends an arbitrary FSM event to a channel
+func (c *Channels) VerifSend(chid datatransfer.ChannelID, code datatransfer.EventCode, args ...interface{}) error {
+	return c.send(chid, code, args...)
+}
+
+// VerifFromInternal wraps an on-disk record in the public accessor view
+func VerifFromInternal(ic VerifChannelState) datatransfer.ChannelState {
+	return fromInternalChannelState(ic)
+}
+
+// VerifIndexCache reads the block index cache entry for (event kind, channel)
+func (c *Channels) VerifIndexCache(evt datatransfer.EventCode, chid datatransfer.ChannelID) (int64, bool) {
+	c.blockIndexCache.lk.RLock()
+	defer c.blockIndexCache.lk.RUnlock()
+	v, ok := c.blockIndexCache.values[cacheKey{evt, chid}]
+	if !ok || v == nil {
+		return 0, false
+	}
+	return atomic.LoadInt64(v), true
+}
+
+// VerifProgressCache reads the progress cache entry for a channel
+func (c *Channels) VerifProgressCache(chid datatransfer.ChannelID) (limit uint64, progress uint64, ok bool) {
+	c.progressCache.lk.RLock()
+	defer c.progressCache.lk.RUnlock()
+	v, ok := c.progressCache.values[chid]
+	if !ok {
+		return 0, 0, false
+	}
+	return v.dataLimit, atomic.LoadUint64(v.progress), true
+}
